@@ -29,7 +29,7 @@ THOROUGH = [
     ("a", "PromAgg_a.cfg", 125, QUICK[0][3], 1),
     ("b", "PromAgg_b.cfg", 125, QUICK[1][3], 1),
     ("A", "PromAgg_a_big.cfg", 4096, "3 series x 2 slots, values {-1,0,2}: aggregation operators", 4),
-    ("B", "PromAgg_b_big.cfg", 1296, "1 series x 4 slots, values -1..3, 2 buckets: over-time functions, rule #1", 2),
+    ("B", "PromAgg_b_big.cfg", 625, "1 series x 4 slots, values {-1,0,1,3}, 2 buckets: over-time functions, rule #1", 1),
     ("C", "PromAgg_c_big.cfg", 729, "3 series x 2 slots, values {-1,2}: everything", 1),
     ("D", "PromAgg_d_big.cfg", 729, "2 series x 3 slots, values {-1,2}, 2 buckets: everything", 1),
 ]
@@ -65,7 +65,7 @@ def run(ctx):
         ctx.go_build_test("internal/promql")
         return drive(ctx, cases)
 
-    with ThreadPoolExecutor(max_workers=4) as pool:
+    with ThreadPoolExecutor(max_workers=7) as pool:
         build = pool.submit(ctx.go_build_test, "internal/promql")
         runs = list(pool.map(model, insts))
         bad = []
